@@ -1,8 +1,9 @@
 """Native replay of a C18 counterexample against the real Indentizer / TextBlock and the ghost specification."""
 import json
+import os
 import sys
 
-sys.path.insert(0, '/verif/native')
+sys.path.insert(0, os.path.dirname(os.path.abspath(__file__)))
 import mkmodel  # noqa: E402
 
 mkmodel.assert_tree()
